@@ -881,7 +881,9 @@ class Interp:
         return binding
 
     def inline(self, fi: FuncInfo, f, args, kwargs, path, node):
-        if any(isinstance(n, (ast.Yield, ast.YieldFrom)) for n in ast.walk(fi.node)):
+        from .util import walk_no_nested
+
+        if any(isinstance(n, (ast.Yield, ast.YieldFrom)) for n in walk_no_nested(fi.node)):
             return None
         recv = f[1] if f[0] == "attr" else None
         if fi.is_classmethod and recv is not None:
